@@ -13,7 +13,7 @@
    - everything else under STRICT is a refusal. *)
 From Coq Require Import List Bool Arith ZArith NArith Lia Init.Byte.
 From HL7 Require Import Lib.Str Model.Ec Model.Result Model.Ref Model.Tree Model.Parser Model.Encode.
-From HL7 Require Import Proofs.RoundTripSeg Proofs.NoDrop Proofs.StrictSubset.
+From HL7 Require Import Proofs.NoDrop Proofs.StrictSubset.
 Import ListNotations.
 Open Scope bs_scope.
 Open Scope res_scope.
@@ -360,7 +360,7 @@ Lemma parse_fields_aux_subset prefix st fv l : forall fs,
 Proof.
   induction l as [|[i f] rest IH]; intros fs; cbn [parse_fields_aux]; [auto|].
   assert (Hne : Some (name_idx prefix i) <> Some []).
-  { destruct (name_idx_cons prefix i) as [c [r ->]]. discriminate. }
+  { unfold name_idx. destruct prefix; discriminate. }
   match goal with |- bind ?X _ = _ -> _ => destruct X as [here|] eqn:E end; cbn [bind]; [|discriminate].
   assert (E' : (if negb (is_blank f)
                 then if streqb (upper (name_idx prefix i)) "MSH_2"
